@@ -128,7 +128,8 @@ def check(ctx):
     # registration helpers themselves
     for meth, flag in (("_add_typedef_name", True), ("_add_identifier", False)):
         fn = px.method("CParser", meth)
-        stores = [n for n in ast.walk(fn) if isinstance(n, ast.Assign) and isinstance(n.targets[0], ast.Subscript) and S.unparse(n.targets[0].value) == "self._scope_stack[-1]"]
+        al = S.path_aliases(fn)
+        stores = [n for n in ast.walk(fn) if isinstance(n, ast.Assign) and isinstance(n.targets[0], ast.Subscript) and S.unparse_resolved(n.targets[0].value, al) == "self._scope_stack[-1]"]
         ok = len(stores) == 1 and isinstance(stores[0].value, ast.Constant) and stores[0].value.value is flag and S.unparse(stores[0].targets[0].slice) == fn.args.args[1].arg
         ctx.oblige("R-C04.2", f"{meth} records {flag} in the innermost scope", ok)
         if not ok:
